@@ -3,31 +3,59 @@
 Monitor: Network.from_units is run on real unit graphs (random DAGs, optional back-edges, permutations of the unit list);
 the flattened path, the reported recycles and the nesting are compared with the true unit/stream graph (plain DFS).
 """
-import itertools, warnings
+import itertools, random, warnings
 import thermosteam as tmo
-from thermosteam.network import Network, AbstractUnit
+from thermosteam.network import Network, AbstractUnit, AbstractInlets, AbstractMissingStream
 from vt.core import case_hash
 
 PID = 'C19'
 RULE = ('random connected DAGs of 2-10 units with 1-3 inlets/outlets each, several feeds (real Streams with distinct mass flows) and products; every permutation of the unit list '
         'for <=4 units, otherwise 3 random permutations (+ identity and reverse); the same graphs with 1-3 back-edges (no self-loops) such that every unit still reaches a product. '
+        'Added: ~30% of the graphs get tied / zero feed flows (all-equal, some-equal, some-zero, all-zero) and ~12% get set_feed_priority values; every permutation for all 5-unit graphs '
+        'and every 10th 6-unit graph (720 orders); the unit collection also given as tuple / dict-keys, and the call forms ends=None / ends=() / ends=<the outlets leaving the set> / ends=<half of them> / recycles=False (acyclic only) / '
+        'interaction=False / Network.from_feedstock(<any feed>, <other feeds>, units=...); variable-size port lists (~15%); extra graph kinds, each under its own clause: '
+        'a connected sub-set of a larger flowsheet (acyclic-subset / cyclic-subset: cycles count only when they lie inside the given set), back-edges that are self-loops (cyclic-selfloop), '
+        'inlet ports left unconnected (acyclic-/cyclic-missing-inlet; bare AbstractMissingStream and a missing-stream class that carries F_mass); every reported recycle must be a stream docked at a given unit. '
+        'A one-shot iterator as unit collection is observed but not judged. '
         'non-trivial = >=3 units and (>=2 feeds or a branch or a cycle); distinct = hash of (graph, permutation)')
 MIN_NONTRIVIAL = {'quick': 500, 'thorough': 20000}
-ASSUMPTIONS = ['units are bare AbstractUnit subclasses using tmo.Stream (feed ranking reads F_mass)']
+ASSUMPTIONS = ['units are bare AbstractUnit subclasses using tmo.Stream (feed ranking reads F_mass)',
+               'a flowsheet built once is reused for the remaining orders of an exhaustive permutation sweep (from_units must leave the connections untouched; checked after each sweep)']
 
 
 def required(tier):
-    return ['acyclic', 'cyclic', 'cyclic:nested-or-multi']
+    return ['acyclic', 'cyclic', 'cyclic:nested-or-multi',
+            'feeds:all-equal', 'feeds:some-equal', 'feeds:some-zero', 'feeds:all-zero', 'feeds:priority',
+            'perm:exhaustive-5', 'perm:exhaustive-6', 'form:tuple', 'form:dict-keys',
+            'call:ends-products', 'call:ends-some-leaving', 'call:recycles-false', 'call:feedstock',
+            'subset', 'subset:cyclic', 'self-loop', 'missing-inlet', 'missing-inlet:bare', 'variable-ports',
+            'recycle-is-flowsheet-stream']
+
+
+class _MissingWithFlow(AbstractMissingStream):
+    """placeholder that carries the attribute the feed ranking reads (as AbstractStream does: 'F_mass = 0 # Required for ... sorting in network')."""
+    __slots__ = ()
+    F_mass = 0
+
+
+class _InletsMS(AbstractInlets):
+    __slots__ = ()
+    MissingStream = _MissingWithFlow
 
 
 _classes = {}
 
 
-def ucls(nin, nout):
-    c = _classes.get((nin, nout))
+def ucls(nin, nout, ins_var=False, outs_var=False, ms=False):
+    key = (nin, nout, ins_var, outs_var, ms)
+    c = _classes.get(key)
     if c is None:
-        c = type(f'N{nin}{nout}', (AbstractUnit,), dict(_N_ins=nin, _N_outs=nout, Stream=tmo.Stream))
-        _classes[(nin, nout)] = c
+        d = dict(_N_ins=nin, _N_outs=nout, Stream=tmo.Stream)
+        if ins_var: d['_ins_size_is_fixed'] = False
+        if outs_var: d['_outs_size_is_fixed'] = False
+        if ms: d['Inlets'] = _InletsMS
+        c = type(f'N{nin}{nout}', (AbstractUnit,), d)
+        _classes[key] = c
     return c
 
 
@@ -98,18 +126,189 @@ def gen_graph(rng, cyclic):
     return g
 
 
-def build(g):
+# ---------------------------------------------------------------------------------------------------------------------
+# added graph kinds (each judged under its own clause so that rates of recorded findings are not mixed)
+
+def _reach(succ, roots):
+    seen = set(roots); st = list(roots)
+    while st:
+        x = st.pop()
+        for y in succ[x]:
+            if y not in seen: seen.add(y); st.append(y)
+    return seen
+
+
+def _has_cycle(nodes, pairs):
+    succ = {k: set() for k in nodes}
+    for a, b in pairs: succ[a].add(b)
+    return any(a in _reach(succ, succ[a]) for a in nodes)
+
+
+def gen_graph_x(rng, cyclic, selfloop=False, p_missing=0.0):
+    """as gen_graph, plus: inlet ports left unconnected (p_missing) and back-edges from a unit to itself (selfloop)."""
+    n = rng.randrange(2, 11)
+    units, free_outs, edges, feeds, missing = [], [], [], [], []
+    for k in range(n):
+        nin, nout = rng.randrange(1, 4), rng.randrange(1, 4)
+        units.append((nin, nout))
+        connected = False
+        for p in range(nin):
+            if free_outs and (rng.random() < 0.6 or (not connected and p == nin - 1 and k > 0)):
+                so = free_outs.pop(rng.randrange(len(free_outs)))
+                edges.append((so[0], so[1], k, p)); connected = True
+            elif p_missing and rng.random() < p_missing:
+                missing.append((k, p))
+            else:
+                feeds.append((k, p, round(10 ** rng.uniform(0, 3), 3) + len(feeds)))
+        if k > 0 and not connected:
+            return None
+        for p in range(nout): free_outs.append((k, p))
+    if not feeds: return None
+    if p_missing and not missing: return None
+    back = []
+    nself = 0
+    if cyclic:
+        for j in range(rng.randrange(1, 4)):
+            if selfloop and j == 0:
+                cands = [(fo, fi) for fo in free_outs for fi in range(len(feeds)) if fo[0] == feeds[fi][0]]
+            elif selfloop:
+                cands = [(fo, fi) for fo in free_outs for fi in range(len(feeds)) if fo[0] >= feeds[fi][0]]
+            else:
+                cands = [(fo, fi) for fo in free_outs for fi in range(len(feeds)) if fo[0] > feeds[fi][0]]
+            if not cands: break
+            fo, fi = rng.choice(cands)
+            f = feeds[fi]
+            if len(feeds) <= 1: break
+            free_outs.remove(fo); feeds.pop(fi)
+            back.append((fo[0], fo[1], f[0], f[1]))
+            if fo[0] == f[0]: nself += 1
+        if not back: return None
+        if selfloop and not nself: return None
+    g = {'units': units, 'edges': edges, 'back': back, 'feeds': feeds}
+    if missing: g['missing'] = missing
+    succ = {k: set() for k in range(n)}
+    for e in edges + back: succ[e[0]].add(e[2])
+    has_product = {fo[0] for fo in free_outs}
+    for k in range(n):
+        if not (_reach(succ, [k]) & has_product): return None
+    # roots: units with a real feed; a unit whose inlet ports are all unconnected starts a walk of its own (from_units takes the placeholder as a feed)
+    with_inlet = {f[0] for f in feeds} | {e[2] for e in edges + back}
+    sources = [k for k in range(n) if k not in with_inlet]
+    if len(_reach(succ, list({f[0] for f in feeds}) + sources)) != n: return None
+    if sources: g['source_units'] = sources
+    g['cyclic'] = any(e[0] in _reach(succ, [e[2]]) for e in back)
+    if cyclic and not g['cyclic']: return None
+    return g
+
+
+def gen_subset(rng, cyclic):
+    """a connected sub-set S (>= 2 units) of a larger flowsheet; 'cyclic' is then the cyclicity of the induced graph.
+    A full flowsheet whose cycles all pass through a unit outside S is not generated (the statement does not say which branch applies)."""
+    g = gen_graph(rng, cyclic)
+    if g is None: return None
+    n = len(g['units'])
+    if n < 3: return None
+    alle = g['edges'] + g['back']
+    nb = {k: set() for k in range(n)}
+    for e in alle: nb[e[0]].add(e[2]); nb[e[2]].add(e[0])
+    size = rng.randrange(2, n)
+    S = [rng.randrange(n)]
+    while len(S) < size:
+        cand = sorted({y for x in S for y in nb[x]} - set(S))
+        if not cand: break
+        S.append(rng.choice(cand))
+    if len(S) < 2: return None
+    S.sort(); Sset = set(S)
+    induced = [(e[0], e[2]) for e in alle if e[0] in Sset and e[2] in Sset]
+    ind_cyclic = _has_cycle(S, induced)
+    if g['cyclic'] and not ind_cyclic: return None
+    # within S: every unit reaches an outlet that leaves S (or a product) and is reached from an inlet that enters S (or a feed)
+    succ = {k: set() for k in S}
+    for a, b in induced: succ[a].add(b)
+    used_out = {(e[0], e[1]) for e in alle if e[2] in Sset}
+    exits = {k for k in S if any((k, p) not in used_out for p in range(g['units'][k][1]))}
+    entries = {f[0] for f in g['feeds'] if f[0] in Sset} | {e[2] for e in alle if e[2] in Sset and e[0] not in Sset}
+    if any(not (_reach(succ, [k]) & exits) for k in S): return None
+    if len(_reach(succ, entries)) != len(S): return None
+    g['kind'] = 'subset'; g['subset'] = S; g['full_cyclic'] = g['cyclic']; g['cyclic'] = ind_cyclic
+    return g
+
+
+FEEDMODES = ('all-equal', 'some-equal', 'some-zero', 'all-zero')
+
+
+def decorate(g, rng):
+    """tied / zero feed flows, feed priorities, variable-size port lists (all stored in the case dict)."""
+    feeds = [list(f) for f in g['feeds']]
+    nf = len(feeds)
+    if rng.random() < 0.3:
+        mode = rng.choice(FEEDMODES)
+        if mode == 'all-equal' and nf >= 2:
+            m = feeds[rng.randrange(nf)][2]
+            for f in feeds: f[2] = m
+        elif mode == 'some-equal' and nf >= 2:
+            idx = rng.sample(range(nf), rng.randrange(2, nf + 1))
+            m = max(f[2] for f in feeds) if rng.random() < 0.5 else feeds[idx[0]][2]     # the tie is at the top half of the time
+            for i in idx: feeds[i][2] = m
+        elif mode == 'some-zero' and nf >= 2:
+            for i in rng.sample(range(nf), rng.randrange(1, nf)): feeds[i][2] = 0.0
+        elif mode == 'all-zero':
+            for f in feeds: f[2] = 0.0
+        else:
+            mode = None
+        if mode:
+            g['feedmode'] = mode; g['feeds'] = feeds
+    if nf >= 2 and rng.random() < 0.12:
+        idx = sorted(rng.sample(range(nf), rng.randrange(1, nf + 1)))
+        g['priority'] = [[i, rng.choice([-1.0, 0.0, 0.25, 1.0, 2.0, 3.0])] for i in idx]
+    if rng.random() < 0.15:
+        var = [[rng.random() < 0.5, rng.random() < 0.5] for _ in g['units']]
+        if not any(a or b for a, b in var): var[rng.randrange(len(var))][rng.randrange(2)] = True
+        # a unit with an unconnected inlet port keeps its fixed-size inlet list (the placeholder is the point; an emptied variable-size list
+        # would make it a unit with fewer / zero inlets, which the quantifier does not cover)
+        for k, _ in g.get('missing', ()): var[k][0] = False
+        if any(a or b for a, b in var): g['var'] = var
+    return g
+
+
+def build_ex(g):
+    """-> (units, feed streams). Ports that get neither a feed nor an edge stay placeholders."""
+    var = g.get('var'); ms = bool(g.get('msfix'))
     units = []
     for k, (nin, nout) in enumerate(g['units']):
-        u = ucls(nin, nout)(None)
+        iv, ov = (bool(var[k][0]), bool(var[k][1])) if var else (False, False)
+        u = ucls(nin, nout, iv, ov, ms)(None)
         u._ID = f'U{k}'
+        if ov:      # a variable-size outlet list filled by append
+            u.outs.clear()
+            for p in range(nout): u.outs.append(tmo.Stream(None))
         units.append(u)
+    fstreams = []
+    pending = {}    # variable-size inlet lists are emptied and filled by append in port order (unconnected ports are then simply absent)
     for k, (du, dp, mass) in enumerate(g['feeds']):
         s = tmo.Stream(None, Water=mass, units='kg/hr'); s._ID = f'feed{k}'
-        units[du].ins[dp] = s
-    for (su, spt, du, dp) in g['edges'] + g['back']:
-        units[du].ins[dp] = units[su].outs[spt]
-    return units
+        fstreams.append(s)
+        if var and var[du][0]: pending.setdefault(du, {})[dp] = s
+        else: units[du].ins[dp] = s
+    for (su, spt, du, dp) in list(g['edges']) + list(g['back']):
+        if var and var[du][0]: pending.setdefault(du, {})[dp] = units[su].outs[spt]
+        else: units[du].ins[dp] = units[su].outs[spt]
+    for du in sorted(pending):
+        units[du].ins.clear()
+        for dp in sorted(pending[du]): units[du].ins.append(pending[du][dp])
+    for fi, val in g.get('priority', ()):
+        fstreams[fi].set_feed_priority(val)
+    return units, fstreams
+
+
+def release(fstreams):
+    """feed priorities live in a class-level dict keyed by stream: drop ours."""
+    fp = tmo.AbstractStream.feed_priorities
+    for s in fstreams: fp.pop(s, None)
+
+
+def build(g):
+    return build_ex(g)[0]
 
 
 def flatten(net):
@@ -130,47 +329,130 @@ def loops(net, acc=None):
     return acc
 
 
-def run_case(case, rec):
+KIND_CLAUSE = {'subset': 'subset', 'self-loop': 'selfloop', 'missing-inlet': 'missing-inlet'}
+CALLS = ('ends-none', 'ends-empty', 'ends-products', 'ends-some-leaving', 'recycles-false', 'interaction-false', 'feedstock')
+
+
+def variant_tag(case):
+    """key part naming the branch a violation was seen under: the structural sub-branch (if any) and the call form / container type when not the default."""
+    g = case['g']; parts = []
+    if g.get('source_units'): parts.append('source-unit')
+    if g.get('missing') and not g.get('msfix'): parts.append('bare-placeholder')
+    if case.get('call', 'default') != 'default': parts.append(case['call'])
+    elif case.get('form', 'list') != 'list': parts.append('units-as-' + case['form'])
+    return ('/' + '+'.join(parts)) if parts else ''
+
+
+def decoration(g):
+    """feed / port decorations of the graph, for the witness text (not part of the key)."""
+    parts = []
+    if g.get('feedmode'): parts.append('feeds ' + g['feedmode'])
+    if g.get('priority'): parts.append('feed priorities set')
+    if g.get('var'): parts.append('variable-size port lists')
+    return (' [' + ', '.join(parts) + ']') if parts else ''
+
+
+def run_case(case, rec, prebuilt=None):
     rec.begin_case(case)
     g = case['g']; perm = case['perm']
+    form = case.get('form', 'list'); call = case.get('call', 'default')
+    kind = g.get('kind')
     cyclic = bool(g.get('cyclic', g['back']))
     clause = 'cyclic' if cyclic else 'acyclic'
+    if kind: clause += '-' + KIND_CLAUSE[kind]
+    vt = variant_tag(case); deco = decoration(g)
+    fstreams = ()
     with warnings.catch_warnings():
         warnings.simplefilter('ignore')
-        units = build(g)
-        ordered = [units[i] for i in perm]
         try:
-            net = Network.from_units(ordered)
-        except Exception as e:
-            rec.exception(clause, e, what=f'Network.from_units raised {type(e).__name__}: {str(e)[:150]} ({len(units)} units, {len(g["back"])} back-edges)')
-            return
+            if prebuilt is None: units, fstreams = build_ex(g)
+            else: units, fstreams = prebuilt
+            ordered = [units[i] for i in perm]
+            nf = len(g['feeds'])
+            # reach counters of the added branches (before the call: a branch that always raises is still a reached branch)
+            if kind == 'subset':
+                rec.hit('subset')
+                if cyclic: rec.hit('subset:cyclic')
+            elif kind == 'self-loop': rec.hit('self-loop')
+            elif kind == 'missing-inlet':
+                rec.hit('missing-inlet')
+                rec.hit('missing-inlet:with-F_mass' if g.get('msfix') else 'missing-inlet:bare')
+                if g.get('source_units'): rec.hit('missing-inlet:source-unit')
+            if g.get('feedmode') and (nf >= 2 or g['feedmode'] == 'all-zero'): rec.hit('feeds:' + g['feedmode'])
+            if g.get('priority'): rec.hit('feeds:priority')
+            if g.get('var'): rec.hit('variable-ports')
+            if form != 'list': rec.hit('form:' + form)
+            if call != 'default': rec.hit('call:' + call)
+            if form == 'generator':
+                # from_units walks `units` twice (network.py from_units: set(units), then a list comprehension over units): a one-shot iterator
+                # is not a "unit list" (quantifier) — observed, counted, not judged
+                net = Network.from_units(u for u in ordered)
+                lost = set(flatten(net)) != set(ordered)
+                rec.refuse('units given as a one-shot iterator: ' + ('units lost from the path' if lost else 'path complete') + ' (not a unit list: not judged)')
+                return
+            arg = ordered
+            if form == 'tuple': arg = tuple(ordered)
+            elif form == 'dict-keys': arg = {u: None for u in ordered}.keys()
+            try:
+                if call == 'default': net = Network.from_units(arg)
+                elif call == 'ends-none': net = Network.from_units(arg, ends=None)
+                elif call == 'ends-empty': net = Network.from_units(arg, ends=())
+                elif call == 'ends-products':
+                    # what from_units itself takes when `ends` is not given: the outlets that leave the given set
+                    inside = set(ordered)
+                    net = Network.from_units(arg, ends=[s for u in ordered for s in u.outs if s.sink not in inside])
+                elif call == 'ends-some-leaving':
+                    # a non-empty part of the outlets that leave the given set ("end streams of the system which are not products"): from_units then takes
+                    # `ends` as given, and the other outlets that leave the set are stopped only by the membership test of the walk
+                    inside = set(ordered)
+                    net = Network.from_units(arg, ends=[s for u in ordered for s in u.outs if s.sink not in inside][::2])
+                elif call == 'recycles-false': net = Network.from_units(arg, recycles=False)
+                elif call == 'interaction-false': net = Network.from_units(arg, interaction=False)
+                elif call == 'feedstock':
+                    fs = case['fs']
+                    net = Network.from_feedstock(fstreams[fs], [s for k, s in enumerate(fstreams) if k != fs], units=arg)
+                else: raise KeyError(call)
+            except Exception as e:
+                # exceptions are recorded under the statement's clause (cyclic / acyclic) for every graph kind: the key names the raising mechanism (exception type @ function),
+                # so a recorded mechanism met through an added graph kind is the same finding; the kind is named in the witness text
+                rec.exception('cyclic' if cyclic else 'acyclic', e, what=f'Network.from_units raised {type(e).__name__}: {str(e)[:150]} ({len(units)} units, {len(g["back"])} back-edges, graph kind {kind or "plain"}{vt and ", " + vt[1:]}){deco}')
+                return
+        finally:
+            if prebuilt is None: release(fstreams)
     path = flatten(net)
     ids = [u.ID for u in path]
-    n = len(units)
-    true_edges = [(e[0], e[2]) for e in g['edges'] + g['back']]
-    tag = clause
+    n = len(ordered)
+    given = set(perm)
+    true_edges = [(e[0], e[2]) for e in g['edges'] + g['back'] if e[0] in given and e[2] in given]
     # path contains exactly the given units
-    rec.check(set(path) == set(units), clause, 'path-set', f'path units {sorted(ids)} != given units {sorted(u.ID for u in units)}')
+    rec.check(set(path) == set(ordered), clause, 'path-set' + vt, f'path units {sorted(ids)} != given units {sorted(u.ID for u in ordered)}{deco}')
     recycles = net.get_all_recycles()
     pos = {}
     for k, u in enumerate(path): pos.setdefault(u, k)
     if not cyclic:
-        rec.check(len(path) == n and len(set(path)) == n, clause, 'each-unit-once', f'acyclic flowsheet: path {ids} does not list every unit exactly once')
+        rec.check(len(path) == n and len(set(path)) == n, clause, 'each-unit-once' + vt, f'acyclic flowsheet: path {ids} does not list every unit exactly once{deco}')
         bad = [(f'U{a}', f'U{b}') for a, b in true_edges if units[a] in pos and units[b] in pos and pos[units[a]] >= pos[units[b]]]
-        rec.check(not bad, clause, 'order', f'acyclic flowsheet: units appear before units that feed them: {bad[:4]} in path {ids}')
-        rec.check(not recycles, clause, 'no-recycle', f'acyclic flowsheet reports recycle streams {recycles}')
+        rec.check(not bad, clause, 'order' + vt, f'acyclic flowsheet: units appear before units that feed them: {bad[:4]} in path {ids}{deco}')
+        rec.check(not recycles, clause, 'no-recycle' + vt, f'acyclic flowsheet reports recycle streams {recycles}{deco}')
     else:
-        rec.check(len(recycles) >= 1, clause, 'recycle-reported', f'cyclic flowsheet ({len(g["back"])} back-edges) reports no recycle; path {ids}')
+        rec.check(len(recycles) >= 1, clause, 'recycle-reported' + vt, f'cyclic flowsheet ({len(g["back"])} back-edges) reports no recycle; path {ids}{deco}')
+        # a reported recycle is a stream of the flowsheet: docked at (an inlet or outlet of) one of the given units
+        docked = set()
+        for u in ordered:
+            docked.update(id(s) for s in u.ins); docked.update(id(s) for s in u.outs)
+        stray = [repr(r) for r in recycles if id(r) not in docked]
+        rec.check(not stray, clause, 'recycle-is-flowsheet-stream' + vt, f'reported recycle(s) {stray[:3]} are not inlets/outlets of the given units; path {ids}{deco}')
+        rec.hit('recycle-is-flowsheet-stream')
         lps = loops(net)
         bad = []
         for a, b in true_edges:
             ua, ub = units[a], units[b]
             if ua in pos and ub in pos and pos[ua] > pos[ub]:
                 if not any(ua in l and ub in l for l in lps): bad.append((ua.ID, ub.ID))
-        rec.check(not bad, clause, 'backward-edge-outside-loop', f'streams run against the path order between units that share no recycle loop: {bad[:4]}; path {ids}')
-        if len(lps) >= 2 or len(recycles) >= 2: rec.hit('cyclic:nested-or-multi')
+        rec.check(not bad, clause, 'backward-edge-outside-loop' + vt, f'streams run against the path order between units that share no recycle loop: {bad[:4]}; path {ids}{deco}')
+        if not kind and (len(lps) >= 2 or len(recycles) >= 2): rec.hit('cyclic:nested-or-multi')
     rec.hit(clause)
-    branch = any(len([e for e in true_edges if e[0] == k]) >= 2 for k in range(n))
+    branch = any(len([e for e in true_edges if e[0] == k]) >= 2 for k in given)
     if n >= 3 and (len(g['feeds']) >= 2 or branch or cyclic): rec.mark_nontrivial(case_hash(case))
 
 
@@ -183,20 +465,78 @@ def replay(case, rec):
 REGRESSION = [
     {"g": {"units": [[1, 2], [1, 2], [3, 1], [2, 2]], "edges": [[0, 1, 1, 0], [1, 1, 2, 1], [1, 0, 2, 2], [0, 0, 3, 1]], "back": [[2, 0, 0, 0], [3, 1, 2, 0]],
            "feeds": [[3, 0, 4.552]], "cyclic": True}, "perm": [0, 1, 2, 3]},
+    # the same recorded mechanism on three units (found through the unconnected-inlet graphs, where feeds cluster at the tail of a chain of back-edges):
+    # U0(2->1) -> U1(2->2) -> U2(3->2), U1 -> U0, U2 -> U1, small feed into U0, the largest feed into U2
+    {"g": {"units": [[2, 1], [2, 2], [3, 2]], "edges": [[0, 0, 1, 0], [1, 0, 2, 0]], "back": [[1, 1, 0, 1], [2, 0, 1, 1]],
+           "feeds": [[2, 1, 4.287], [2, 2, 5.496], [0, 0, 1.0]], "cyclic": True}, "perm": [0, 1, 2]},
 ]
+
+
+def _safe(case, rec, prebuilt=None):
+    try:
+        run_case(case, rec, prebuilt)
+    except Exception as e:
+        rec.exception('harness', e, what=f'harness error: {type(e).__name__}: {e}')
+
+
+def _signature(units):
+    return [([id(s) for s in u.ins], [id(s) for s in u.outs], [(id(s._source), id(s._sink)) for s in list(u.ins) + list(u.outs)]) for u in units]
+
+
+def sweep(g, perms, rec):
+    """the remaining orders of an exhaustive sweep, on one built flowsheet (from_units only reads the connections; verified after the sweep)."""
+    with warnings.catch_warnings():
+        warnings.simplefilter('ignore')
+        units, fstreams = build_ex(g)
+    try:
+        before = _signature(units)
+        for p in perms: _safe({'g': g, 'perm': list(p)}, rec, (units, fstreams))
+        if _signature(units) != before:
+            rec.violation(f'{PID}/harness/flowsheet-changed-by-from_units', 'the connections of a flowsheet differ after Network.from_units calls: the orders of this sweep were not independent cases',
+                          case={'g': g, 'perm': list(perms[-1])})
+    finally:
+        release(fstreams)
+
+
+def some_perms(rng, members):
+    n = len(members)
+    if n <= 4: return [list(p) for p in itertools.permutations(members)]
+    perms = [list(members), list(reversed(members))]
+    for _ in range(3):
+        p = list(members); rng.shuffle(p); perms.append(p)
+    return perms
+
+
+def extras(g, members, rec, xr):
+    """other container types for the unit collection and other call forms of the same operation (one at a time, random order of the units)."""
+    def order():
+        p = list(members); xr.shuffle(p); return p
+    if xr.random() < 0.3:
+        _safe({'g': g, 'perm': order(), 'form': xr.choice(['tuple', 'dict-keys'])}, rec)
+    if xr.random() < 0.05:
+        _safe({'g': g, 'perm': order(), 'form': 'generator'}, rec)
+    if xr.random() < 0.35:
+        cyclic = bool(g.get('cyclic', g['back']))
+        calls = [c for c in CALLS if not (c == 'recycles-false' and cyclic) and not (c == 'feedstock' and g.get('kind'))]
+        call = xr.choice(calls)
+        case = {'g': g, 'perm': order(), 'call': call}
+        if call == 'feedstock': case['fs'] = xr.randrange(len(g['feeds']))
+        _safe(case, rec)
 
 
 def run(rec, rng, tier, shard, nshards):
     tmo.settings.set_thermo(['Water'], cache=True)
     if shard == 0:
         for case in REGRESSION: run_case(case, rec)
+    xr = random.Random(rng.getrandbits(48))     # the added branches draw from their own stream
     ngraphs = 1000 if tier == 'quick' else 15000
-    done = 0
+    done = 0; six = 0
     while done < ngraphs:
         cyclic = rng.random() < 0.5
         g = gen_graph(rng, cyclic)
         if g is None: continue
         done += 1
+        decorate(g, xr)
         n = len(g['units'])
         if n <= 4: perms = list(itertools.permutations(range(n)))
         else:
@@ -209,4 +549,35 @@ def run(rec, rng, tier, shard, nshards):
                 run_case(case, rec)
             except Exception as e:
                 rec.exception('harness', e, what=f'harness error: {type(e).__name__}: {e}')
+        # every permutation: all 5-unit graphs, every 10th 6-unit graph
+        if n == 6: six += 1
+        if n == 5 or (n == 6 and six % 10 == 1):
+            seen = {tuple(p) for p in perms}
+            rest = [p for p in itertools.permutations(range(n)) if p not in seen]
+            sweep(g, rest, rec)
+            rec.hit(f'perm:exhaustive-{n}')
+        extras(g, list(range(n)), rec, xr)
         if done % 101 == 0: rec.sample({'g': g, 'perm': list(perms[-1])})
+    # added graph kinds
+    nx = 160 if tier == 'quick' else 2500
+    for kind in ('subset', 'self-loop', 'missing-inlet'):
+        made = 0
+        while made < nx:
+            if kind == 'subset':
+                g = gen_subset(xr, xr.random() < 0.5)
+            elif kind == 'self-loop':
+                g = gen_graph_x(xr, True, selfloop=True)
+                if g is not None: g['kind'] = 'self-loop'
+            else:
+                g = gen_graph_x(xr, xr.random() < 0.5, p_missing=0.2)
+                if g is not None:
+                    g['kind'] = 'missing-inlet'
+                    # one graph in four keeps the library's own placeholder class; the others use one that carries F_mass
+                    if made % 4: g['msfix'] = True
+            if g is None: continue
+            made += 1
+            decorate(g, xr)
+            members = g['subset'] if kind == 'subset' else list(range(len(g['units'])))
+            for p in some_perms(xr, members): _safe({'g': g, 'perm': p}, rec)
+            extras(g, members, rec, xr)
+            if made % 67 == 0: rec.sample({'g': g, 'perm': list(members)})
